@@ -48,6 +48,40 @@ func init() {
 		Assumptions: []string{"bound values are finite float64 (JSON numbers after parsing)"},
 	})
 	reg(&Property{
+		ID: "C06",
+		Units: []Unit{
+			{Name: "string-validator", Harness: "pkg/generator:HarnessC06L2", Layer: "L2",
+				Desc:   "stringValidator.generate + jsonFormatter.generate emit UnmarshalJSON for `type T struct{X string|*string}`; symbolic minLength/maxLength (holes), optional pattern; the document string is an atom with arbitrary byte length, rune length and match outcome: accepted iff rune length within the limits and pattern matched; value kept; receiver unchanged on error",
+				Bounds: "limits 1..2^20 or absent (0 = absent in the parsed representation); one pattern (^a) as an uninterpreted predicate (regex dialect outside the claim); strings: 0 <= runes <= bytes <= 4*runes, bytes < 2^20; member x absent/null/string",
+				Panic:  "inconclusive"},
+		},
+		Assumptions: []string{"regexp.MatchString(p, s) is an uninterpreted predicate match_p(s) shared by the code and the reference model", "document strings are valid UTF-8"},
+	})
+	reg(&Property{
+		ID: "C07",
+		Units: []Unit{
+			{Name: "array-validator/depth<=2", Harness: "pkg/generator:HarnessC07L2", Layer: "L2",
+				Desc:   "arrayValidator.generate (with the index bookkeeping it emits) for a [](..)float64 field of nesting depth 1..2, validator attached to level 1..depth, symbolic minItems/maxItems; symbolic documents with arrays of symbolic length <= N at every level and null inner arrays: accepted iff every array at that level is null/absent or has a length within the limits",
+				Bounds: "depth <= 2, document array lengths 0..N per level (N=2 quick, N=3 thorough), limits 1..2^20 or absent; unwinding: the emitted range loops run over concrete lengths <= N on each path",
+				Quick:  map[string]int{"N": 2, "DEPTH": 2}, Thor: map[string]int{"N": 3, "DEPTH": 2},
+				Panic:  "inconclusive"},
+			{Name: "array-validator/depth3", Harness: "pkg/generator:HarnessC07L2", Layer: "L2",
+				Desc:   "same for nesting depth 3 (levels 1..3)",
+				Bounds: "depth 3, document array lengths 0..N per level (N=1 quick, N=2 thorough)",
+				Quick:  map[string]int{"N": 1, "MINDEPTH": 3, "DEPTH": 3}, Thor: map[string]int{"N": 2, "MINDEPTH": 3, "DEPTH": 3},
+				Panic:  "inconclusive"},
+		},
+	})
+	reg(&Property{
+		ID: "C04",
+		Units: []Unit{
+			{Name: "required-validator", Harness: "pkg/generator:HarnessC04L2", Layer: "L2",
+				Desc:   "requiredValidator.generate + jsonFormatter/yamlFormatter.generate (raw-map presence test before the typed decode) for a struct with three members and every subset of them required; all presence flags of the document symbolic at once: accepted iff every required key is present, null counting as present; JSON and YAML methods",
+				Bounds: "3 members (plain / nullable int / nullable string), every non-empty subset required, members absent/null/type-correct value",
+				Panic:  "inconclusive"},
+		},
+	})
+	reg(&Property{
 		ID: "C15",
 		Units: []Unit{
 			{Name: "min-int-type/exact-grid", Harness: "pkg/codegen:HarnessC15L1F", Layer: "L1",
